@@ -48,5 +48,18 @@ def main():
     sys.exit(1 if missed else 0)
 
 
+def _restore_generated():
+    """The checks above regenerated lean/VerdeModel/Gen/*.lean from scratch copies of the repository: put the pinned snapshots back."""
+    here = os.path.dirname(os.path.abspath(__file__))
+    gen, snap = os.path.join(here, "..", "lean", "VerdeModel", "Gen"), os.path.join(here, "..", "lean", "VerdeModel", "GenSnapshot")
+    for f in os.listdir(snap):
+        if f.endswith(".lean.txt"):
+            with open(os.path.join(gen, f[:-4]), "w") as h:
+                h.write(open(os.path.join(snap, f)).read())
+
+
 if __name__ == "__main__":
-    main()
+    try:
+        main()
+    finally:
+        _restore_generated()
